@@ -1240,6 +1240,9 @@ func (m *Monitors) checkJobTransition(ev *Event, jr *jobRec, old, j *execution.J
 			for _, r := range jr.Pods {
 				if r.live() {
 					sig := "finished-with-live-task"
+					if res == execution.JobResultAdmissionError {
+						sig = "finished-with-live-task:admission-error"
+					}
 					if !r.Recorded {
 						sig = "finished-with-" + m.unrecordedClass(j)
 					}
